@@ -21,19 +21,19 @@ CHECKS.update({
          "Documents: depth <= 2, width <= 2, keys {a,b}, leaves null / finite float64 (thorough: depth 3, strings). Subscripts directly below .** in strict mode are excluded (the property speaks of member accessors only; the port raises where PostgreSQL skips). The reference evaluator (harness/ref.go) is part of the trusted base.", "6 C07"),
  "C12": ("The six comparison operators, starts with, and the lax/strict sequence rules are executed by the real compareItems/compareNumeric/executePredicate code on symbolic pairs and triples of items of every kind and numeric representation (int64, float64, json.Number int/float, strings as symbolic bytes); results are compared with an exact order computed in the solver (int64 vs float64 by floor/fraction case split, no rounding), and duality, union, negation, trichotomy and transitivity are checked as relations between executions.",
          "Strings <= 2 bytes (thorough 4); arrays of <= 2 items per side for the sequence rules; transitivity triples over float64/int64/string in quick, plus json.Number in thorough. like_regex (flag translation, matching) is not decided here: regexp is stdlib (see C04 for flags). Datetime ordering is C17.", "6 C12"),
- "C14": ("Arrays of every length 0..3 (thorough 5) with lazily shaped elements (JSON null included), a non-array document, and subscript forms [$i] [$i to $j] [$i,$j] [last] [$i to last] [last - 1 to $j] [0, $i to $j] plus nested subscripts, with every bound an unconstrained number (int64 / float64; thorough also json.Number): items and error class are compared with slice arithmetic in the reference evaluator for both modes.",
+ "C14": ("Arrays of every length 0..3 (thorough 5) with lazily shaped elements (JSON null included), a non-array document, and subscript forms [$i] [$i to $j] [$i,$j] [last] [$i to last] [last - 1 to $j] [0, $i to $j] plus nested subscripts, with every bound an unconstrained number (int64 / float64 / json.Number): items and error class are compared with slice arithmetic in the reference evaluator for both modes.",
          "Known finding listed: an element that is JSON null is dropped (pinned by the repository's own TestExecArrayIndex/skip_nil, so not repaired); every other divergence is still reported under a different label.", "6 C14"),
  "C15": ("`.*`, `[*]`, `.**`, `.**{k}`, `.**{a to b}`, `.**{last}` and member/wildcard accessors after `.**` are executed on every JSON tree shape within the bound (empty arrays and objects included) and compared, as multisets where object member order is open and in pre-order otherwise, with an explicit tree walk; level bounds are also symbolic (ast.NewAny on unconstrained ints in -1..2^32), and .** == .**{0 to last}, .**{1}.**{1} == .**{2} are checked as relations between executions.",
          "Trees: depth <= 2, width <= 2, keys {a,b} (thorough depth 3). Object member order is left open (multiset comparison).", "6 C15"),
 })
 
-POOL = "the path pool of harness/pool.go (about 90 paths covering every executor node kind: accessors, wildcards, subscripts, recursive descent, filters incl. nested, arithmetic, predicates as items, all item methods except datetime, variables, literals), lax and strict, on lazily shaped symbolic documents (null, bool, finite float64, json.Number as integer / non-integer / outside float64 range, ASCII strings <= 1 byte, arrays and objects to depth 2) and symbolic variables"
+POOL = "the path pool of harness/pool.go (about 107 paths covering every executor node kind: accessors, wildcards, subscripts incl. erroring subscript expressions, recursive descent, filters incl. nested, arithmetic, predicates as items, all item methods except datetime, variables, literals), lax and strict, on lazily shaped symbolic documents (null, bool, finite float64, json.Number as integer / non-integer / outside float64 range, ASCII strings <= 1 byte, arrays and objects to depth 2) and symbolic variables"
 CHECKS.update({
- "C05": ("Query, First, Exists, Match and ExistsOrMatch are executed symbolically over " + POOL + ", with and without WithSilent: no Go panic on any path (explicit panics, nil dereference, index/slice bounds, failed type assertions and division by zero are built-in checks of the executor), every error wraps ErrExecution or is NULL from the boolean entry points, ErrInvalid is never returned, every returned float64 is finite, the document and the variables are frozen (any store into them is detected), and every returned container is a sub-value of an input or a keyvalue() triple.",
+ "C05": ("Query, First, Exists, Match and ExistsOrMatch are executed symbolically over " + POOL + ", with and without WithSilent: no Go panic on any path (explicit panics, nil dereference, index/slice bounds, failed type assertions and division by zero are built-in checks of the executor), every error wraps ErrExecution or is NULL from the boolean entry points, ErrInvalid is never returned, every returned float64 is finite, the document and the variables are frozen (any store into them is detected), and every returned container is a sub-value of an input or a keyvalue() triple. C05_Wide repeats the frame condition on arrays of three null-or-number elements (as the document, as a member and as a variable) through 16 paths that loop over ranges and sequences.",
          "Bounds as stated (quick: width 1, thorough: width 2, strings 2 bytes). Datetime methods are not in the pool (time.Parse is stdlib; C17/C18 not claimed), so the known ErrInvalid from comparing a datetime with a non-datetime is outside this check. regexp matching and math.Mod are uninterpreted/contract stubs; strconv.ParseFloat is interpreted from its real source for symbolic strings.", "6 C05"),
  "C06": ("The five entry points are run on identical symbolic inputs over " + POOL + " and related: First = head of Query with the same error class; Exists agrees with the emptiness of a successful Query, never answers true when the complete evaluation yields nothing, and in strict mode never hides an error Query reports; Match maps a sole boolean / sole null / anything else to (b,nil) / NULL / the single-boolean error (NULL when silent); ExistsOrMatch dispatches on IsPredicate.",
          "Known finding listed: in lax mode a unary +/- over a non-numeric item answers Exists = true (pinned by the repository's own TestExecUnaryMathExpr/nan). Object member order is left open (First is not compared for paths that iterate members).", "6 C06"),
- "C08": ("Each of Query, First, Exists and Match is run with and without WithSilent on identical symbolic inputs over " + POOL + ": the silent run never returns ErrVerbose, equals the verbose run when that succeeds, returns no error (Query/First) or NULL-or-answer (Exists/Match) where the verbose run fails suppressibly, and returns non-suppressible errors unchanged; in addition 13 paths that evaluate a filter or predicate before an erroring step are compared with the stateless reference evaluator for their error class (the save/restore of the verbose flag).",
+ "C08": ("Each of Query, First, Exists and Match is run with and without WithSilent on identical symbolic inputs over " + POOL + ": the silent run never returns ErrVerbose, equals the verbose run when that succeeds, returns no error (Query/First) or NULL-or-answer (Exists/Match) where the verbose run fails suppressibly -- with exactly the items found before the failure, taken as the partial result of the depth-first reference evaluator -- and returns non-suppressible errors unchanged; in addition 13 paths that evaluate a filter or predicate before an erroring step are compared with the stateless reference evaluator for their error class (the save/restore of the verbose flag).",
          "Non-suppressible errors reachable in the pool: unknown variable, .double() of an unparsable string; TZ casts and .datetime(template) are not in the pool. Cancellation is C20.", "6 C08"),
  "C09": ("For every chain of 2 (thorough 3) steps from 15 step kinds and every split point, Query(P S) is compared with the concatenation over Query(P) of Query($ S, x) including where the first failure falls; $v S is compared with $ S on the same value; and 10 paths that use @, last or $ after a nested filter / nested subscript are compared with a reference evaluator whose environment is passed by value.",
          "Steps following .** in strict mode are excluded, as the property says; keyvalue() is not among the steps (ids depend on addresses). Documents to depth 2 (thorough 3), width 2, keys {a,b}.", "6 C09"),
@@ -55,7 +55,7 @@ CHECKS.update({
 })
 
 CHECKS.update({
- "C01": ("Query is compared with a reference evaluator written from the documented rules (harness/ref.go, environment passed by value) on the same symbolic inputs: over the path pool, and over generated paths head x <=2 accessor steps x 32 tails (arithmetic, comparisons, methods, filters incl. nested, subscripts), lax and strict: same items in the same order (multiset where object member order is open) and the same error class; predicate check expressions return exactly one of true / false / null.",
+ "C01": ("Query is compared with a reference evaluator written from the documented rules (harness/ref.go, environment passed by value) on the same symbolic inputs: over the path pool, over generated paths head x <=2 accessor steps x 32 tails (arithmetic, comparisons, methods, filters incl. nested, subscripts), and over 19 iteration paths on two-entry documents each taken plain, under exists() and under $ ? (exists()), lax and strict: same items in the same order (multiset where object member order is open) and the same error class; predicate check expressions return exactly one of true / false / null.",
          "The reference evaluator is the trusted oracle; where the rules leave a result open (float remainder values, string->number parsing, keyvalue ids, .size() and subscripts on non-arrays below .** in strict mode, lax exists() after a partial result) it declines and nothing is asserted. Known findings listed under their own labels: null elements dropped by subscripts; `is unknown` swallowing the unknown-variable error. WithTZ / context zone and datetime methods are decided in C17. Quick: documents of width 1 for generated paths, numbers as float64 (representation pairs are C12/C13/C16).", "6 C01"),
  "C16": ("Numeric methods (.floor .ceiling .abs .double .number .integer .bigint .boolean) on unconstrained symbolic numbers in int64 / float64 / json.Number form against rounding-and-range oracles stated in the solver (RNA rounding, -2^63 <= round(x) < 2^63, int32 range, integrality); every method x every input kind for acceptance, suppressible rejection, lax unwrapping and strict rejection of arrays, .type() names and .size(); string inputs for .boolean() (all documented words in every letter case, and every 2-byte ASCII string), .integer()/.bigint() (decimal text crossing the int32/int64 limits, symbolic digits), .double()/.number(); .decimal(p,s) over precision/scale boundary values with the rounded value and the digit rule (carries included) checked in integer arithmetic; keyvalue() triples, sorted keys, ids equal within / distinct across objects and stable; .string() round trips for booleans and int64.",
          ".decimal(): values sign*(byte*{1,100}) + {0,.5,.25,.99}; scales -2..2 for the digit rule. keyvalue ids: symbolic addresses under an allocator model in which addresses grow in allocation order (collisions of objects on opposite sides of the base object are outside the claim and cannot be replayed). .string() of floats and string->float values rely on strconv (stdlib).", "6 C16"),
